@@ -9,6 +9,7 @@ import (
 	"fmt"
 	"io"
 	"os"
+	"strconv"
 	"strings"
 	"sync"
 	"time"
@@ -226,7 +227,17 @@ func execPtyCase(c *runCtx, pc *ptyCase, cases lineW) error {
 	mu.Lock()
 	data := append([]byte(nil), got...)
 	mu.Unlock()
-	cases.WriteString("bytes " + fmt.Sprintf("%q", strings.ReplaceAll(string(data), "\r\n", "\n")) + "\nend\n")
+	norm := strings.ReplaceAll(string(data), "\r\n", "\n") // the tty driver's ONLCR
+	cases.WriteString("bytes " + fmt.Sprintf("%q", norm) + "\n")
+	var rb strings.Builder
+	rb.WriteString("raw ")
+	for i := 0; i < len(norm); i++ {
+		if i > 0 {
+			rb.WriteByte(',')
+		}
+		rb.WriteString(strconv.Itoa(int(norm[i])))
+	}
+	cases.WriteString(rb.String() + "\nend\n")
 	c.count(fmt.Sprintf("groups_vs_rows_%s", cmpClass(pc.nbars*(1+pc.xrows), pc.rows)))
 	return nil
 }
